@@ -42,11 +42,11 @@ int main(void){
             "maxWriteLimit", "ushrtMax"]
     if any(k not in vals for k in need) or len(vers) != 3:
         raise ExtractError("FastCGI / gateway constants: shape changed")
-    s = "namespace LtVerif.Extracted\n\n"
+    s = "namespace LtVerif.Extracted.C09\n\n"
     s += "/-- compat/fastcgi.h, chunk.h, gw_backend.h, <limits.h> -/\n"
     for k in need:
         s += "def %s : Nat := %d\n" % (k, vals[k])
     s += "\n/-- http_kv.c: http_versions[] for HTTP/1.0, HTTP/1.1, HTTP/2 -/\n"
     s += "def httpVersionNames : List String := [" + ", ".join('"%s"' % v for v in vers) + "]\n"
-    s += "\nend LtVerif.Extracted\n"
+    s += "\nend LtVerif.Extracted.C09\n"
     return s
